@@ -150,7 +150,6 @@ Qed.
 Section VgPair.
 Variables (cf : cfg) (d : dirp).
 Hypothesis Hcalc : c_calc cf = Vg.
-Hypothesis Hchk : c_dateChk cf = false.
 Hypothesis Hdp : 0 < d_dpas d.
 Hypothesis Htol : 0 <= d_tol d.
 Hypothesis Hps0 : 0 <= d_psmin d.
@@ -176,12 +175,15 @@ Proof.
   - destruct (isOK d false (geo_pair d a b)) as [|neg]; [contradiction|]. exists neg; reflexivity.
 Qed.
 
+(* the date test of the pair (a, b), when a date interval is in force *)
+Definition dchk (a b : sample) : bool := negb (c_dateChk cf) || date_ok d a b.
+
 Definition vg_pair_sw (iv jv k : nat) (a b : sample) : Q :=
-  if pair_in d k a b then
+  if pair_in d k a b && dchk a b then
     match defined2 a b iv jv with Some _ => get_weight cf a * get_weight cf b | None => 0 end
   else 0.
 Definition vg_pair_num (iv jv k : nat) (a b : sample) : Q :=
-  if pair_in d k a b then
+  if pair_in d k a b && dchk a b then
     match defined2 a b iv jv with
     | Some (z11, z12, z21, z22) => get_weight cf a * get_weight cf b * ((z12 - z11) * (z22 - z21) / 2)
     | None => 0 end
@@ -192,19 +194,22 @@ Lemma pair_updates_vg means a b :
   match isOK d false (geo_pair d a b) with
   | Rej => []
   | Acc neg =>
+      if dchk a b then
       match lag_rank d (g_d2 (geo_pair d a b)) with
       | None => []
       | Some k =>
           flat_map (eval_sym (d_npas d)
                       {| p_w1 := get_weight cf a; p_w2 := get_weight cf b;
                          p_dlo := sqrt_lo (g_d2 (geo_pair d a b)); p_dhi := sqrt_hi (g_d2 (geo_pair d a b)); p_ipas := k;
-                         p_orient := if qltb 0 (g_d2 (geo_pair d a b)) && negb neg then Oplus else Ominus |}
+                         p_orient := if qltb 0 (g_d2 (geo_pair d a b)) && negb neg then Oplus else Ominus;
+                         p_coinc := qleb (g_d2 (geo_pair d a b)) 0 |}
                       a b (get_weight cf a * get_weight cf b) phi_vg (fun _ => 0)) (seq 0 (c_nvar cf))
-      end
+      end else []
   end.
 Proof.
-  unfold pair_updates, evaluate. rewrite Hcalc, Hchk. cbn [is_asym andb]. fold (geo_pair d a b).
+  unfold pair_updates, evaluate, dchk. rewrite Hcalc. cbn [is_asym]. fold (geo_pair d a b).
   destruct (isOK d false (geo_pair d a b)); [reflexivity|].
+  destruct (c_dateChk cf); destruct (date_ok d a b); cbn [andb negb orb]; try reflexivity;
   destruct (lag_rank d (g_d2 (geo_pair d a b))); reflexivity.
 Qed.
 
@@ -226,6 +231,8 @@ Proof.
   { assert (E : pair_in d k a b = false).
     { destruct (pair_in d k a b); [|reflexivity]. destruct PL as [_ PL]. destruct (PL eq_refl) as [[n H] _]. discriminate. }
     rewrite E. repeat split; reflexivity. }
+  destruct (dchk a b) eqn:ED; [|rewrite andb_false_r; repeat split; reflexivity].
+  rewrite andb_true_r.
   destruct (lag_rank d (g_d2 (geo_pair d a b))) as [k'|] eqn:EL.
   2:{ assert (E : pair_in d k a b = false).
       { destruct (pair_in d k a b); [|reflexivity]. destruct PL as [_ PL]. destruct (PL eq_refl) as [_ H]. discriminate. }
@@ -268,15 +275,19 @@ Lemma defined2_swap a b iv jv :
 Proof.
   unfold defined2. destruct (zval a iv), (zval b iv), (zval a jv), (zval b jv); reflexivity.
 Qed.
-Lemma vg_pair_sw_swap iv jv k a b : vg_pair_sw iv jv k a b == vg_pair_sw iv jv k b a.
+Lemma dchk_off a b : c_dateChk cf = false -> dchk a b = true.
+Proof. intro H. unfold dchk. rewrite H. reflexivity. Qed.
+Lemma vg_pair_sw_swap iv jv k a b : c_dateChk cf = false -> vg_pair_sw iv jv k a b == vg_pair_sw iv jv k b a.
 Proof.
-  unfold vg_pair_sw. rewrite (pair_in_swap k a b), (defined2_swap a b).
+  intro Hchk. unfold vg_pair_sw. rewrite !dchk_off by exact Hchk. rewrite !andb_true_r.
+  rewrite (pair_in_swap k a b), (defined2_swap a b).
   destruct (pair_in d k a b); [|reflexivity].
   destruct (defined2 a b iv jv) as [[[[z11 z12] z21] z22]|]; [ring|reflexivity].
 Qed.
-Lemma vg_pair_num_swap iv jv k a b : vg_pair_num iv jv k a b == vg_pair_num iv jv k b a.
+Lemma vg_pair_num_swap iv jv k a b : c_dateChk cf = false -> vg_pair_num iv jv k a b == vg_pair_num iv jv k b a.
 Proof.
-  unfold vg_pair_num. rewrite (pair_in_swap k a b), (defined2_swap a b).
+  intro Hchk. unfold vg_pair_num. rewrite !dchk_off by exact Hchk. rewrite !andb_true_r.
+  rewrite (pair_in_swap k a b), (defined2_swap a b).
   destruct (pair_in d k a b); [|reflexivity].
   destruct (defined2 a b iv jv) as [[[[z11 z12] z21] z22]|]; [field|reflexivity].
 Qed.
